@@ -183,7 +183,8 @@ def pyEq (H : Host ω σ) : V ω → V ω → Option Bool
   | v, .host o => some (H.eqHost o v)
   | .py (.float f), b =>
       match asInt? b with
-      | some i => some (F64.isFinite f && (F64.toQ f).num == i.natAbs && ((F64.toQ f).neg == decide (i < 0) || i == 0) && (F64.toQ f).den == 1)
+      | some i => some (F64.isFinite f && (F64.toQ f).num == i.natAbs * (F64.toQ f).den
+                         && ((F64.toQ f).neg == decide (i < 0) || (F64.toQ f).num == 0))   -- exact: float == int
       | Option.none => Option.none
   | .py (.str _), .int _ => some false | .py (.str _), .bool _ => some false
   | .py (.ints _), .int _ => some false | .py (.ints _), .bool _ => some false
@@ -931,11 +932,17 @@ structure Fn where
   body : List S
 deriving Repr, Inhabited
 
-/-- call a translated function with positional arguments; falling off the end returns `None` -/
-def runFn (H : Host ω σ) (fuel : Nat) (f : Fn) (args : List (V ω)) (h : σ) : X ω (V ω) × σ :=
-  match execB H fuel f.body { vars := f.params.zip args, h := h } with
+/-- what a function call makes of the way its body ended; falling off the end returns `None` -/
+def retOf (r : X ω (Flow ω) × St ω σ) : X ω (V ω) × σ :=
+  match r with
   | (.error x, st) => (.error x, st.h)
   | (.ok (.ret v), st) => (.ok v, st.h)
   | (.ok _, st) => (.ok .none, st.h)
+
+/-- call a translated function with positional arguments -/
+def runFn (H : Host ω σ) (fuel : Nat) (f : Fn) (args : List (V ω)) (h : σ) : X ω (V ω) × σ :=
+  retOf (execB H fuel f.body { vars := f.params.zip args, h := h })
+
+attribute [pyeval] retOf
 
 end Ubx.Py
